@@ -377,6 +377,49 @@ def ps_k(prog: Program, res: Result) -> None:
             res.bad("PS-k", fi.short, desc, prog.loc(fi, calls[0]), f"permutation = {pdef}")
     else:
         res.undecided("PS-k", fi.short, desc, prog.loc(fi))
+    # the sort key is current: no write to the weights between computing the permutation and applying it
+    from ..paths import enumerate_paths
+    for name in ("normalize", "arrange"):
+        fj = prog.func(K + name)
+        desc_s = f"{name}: the sort permutation is computed from the weights as they are when it is applied (no write to the weights in between)"
+        pnames = {}
+        for a in ast.walk(fj.node):
+            if isinstance(a, ast.Assign) and len(a.targets) == 1 and isinstance(a.targets[0], ast.Name) and "argsort" in ast.unparse(a.value) \
+                    and "self.weights" in ast.unparse(a.value):
+                pnames[a.targets[0].id] = a
+        if not pnames:
+            continue
+        stale = None
+        checked = 0
+        for items, end in enumerate_paths(fj.node.body, limit=20000):
+            if end == "raise":
+                continue
+            seq = [st for k, st in items if k in ("stmt", "return")]
+            for nm, d in pnames.items():
+                if d not in seq:
+                    continue
+                i = seq.index(d)
+                for j in range(i + 1, len(seq)):
+                    st = seq[j]
+                    uses = any(isinstance(x, ast.Name) and x.id == nm and isinstance(x.ctx, ast.Load) for x in ast.walk(st))
+                    if uses:
+                        checked += 1
+                        between = seq[i + 1:j]
+                        for b in between:
+                            tg = None
+                            if isinstance(b, ast.Assign):
+                                tg = b.targets[0]
+                            elif isinstance(b, ast.AugAssign):
+                                tg = b.target
+                            if tg is not None and ast.unparse(tg).startswith("self.weights"):
+                                stale = stale or (b, st)
+                        break
+        if stale:
+            res.bad("PS-k", fj.short, desc_s, prog.loc(fj, stale[0]),
+                    f"`{ast.unparse(stale[0])[:60]}` changes the weights after the permutation was computed and before `{ast.unparse(stale[1])[:50]}` "
+                    "applies it: the components are ordered by outdated (e.g. still signed, not yet repaired) weights")
+        elif checked:
+            res.ok("PS-k", fj.short, desc_s, prog.loc(fj, next(iter(pnames.values()))))
     fi = prog.func(K + "arrange")
     desc = "arrange sorts by descending weight"
     pdefs = [ast.unparse(a.value).replace(" ", "") for a in ast.walk(fi.node) if isinstance(a, ast.Assign) and isinstance(a.targets[0], ast.Name)
@@ -515,7 +558,7 @@ def absorb(prog: Program, res: Result) -> None:
 def check(prog: Program, res: Result, tier: str) -> None:
     res.explanation = __doc__.split("\n\n", 1)[1]
     res.assumptions = ["breakpt + 1 is the number of negatively correlated modes (index + 1)", "np.floor / int keep integer values integer"]
-    res.floors = {"PARITY": 3, "PS-k": 6, "EO-3": 4, "ABSORB": 3, "SCALE": 12}
+    res.floors = {"PARITY": 3, "PS-k": 8, "EO-3": 4, "ABSORB": 3, "SCALE": 12}
     parity(prog, res)
     ps_k(prog, res)
     eo3(prog, res)
